@@ -289,6 +289,22 @@ def reuse_ref_scenarios(rng, tag, n):
     return out
 
 
+def acct_seq_scenarios(rng, tag, n):
+    """accounting records of every flag value as first (seq 1) and as later (seq 3, 5) record of a session"""
+    cfg = base_cfg(rng, tag)
+    flags = [2, 4, 8, 10, 0, 6, 12, 14, 1]
+    pairs = [(a, b) for a in flags for b in flags]
+    rng.shuffle(pairs)
+    out = []
+    for i, (f1, f2) in enumerate(pairs[:n]):
+        u = rng.choice(["alice", "alice", "frank", "kate", "carol"])
+        rec = lambda f: (acct(u, f, [list(b"task_id=%d" % rng.randint(1, 99)), list(b"elapsed=3")]), 0, [])
+        script = [rec(f1), rec(f2)] + ([rec(rng.choice(flags))] if rng.random() < 0.3 else [])
+        steps = session_steps(1, i % 4, script, fl=rng.choice([0, 1])) + session_steps(1, (i + 1) % 4, [rec(2)])
+        out.append({"id": "acctseq-%d" % i, "cfg": cfg, "conns": [{"c": 1, "addr": "10.1.0.5"}], "steps": steps, "iso": False, "log": False})
+    return out
+
+
 def repeated_rule_scenarios(rng, tag, n):
     """command rules that are met again and again by the same request: a rule whose only pattern does not compile (the
     request is refused every time), and rules whose verdict depends on a word being there twice"""
@@ -731,6 +747,8 @@ def collect(ctx, prop):
         if prop == "C09":
             for s in scen[-(40 if quick else 600):]:
                 s["iso"] = True
+    if prop in ("C06", "C07", "C12"):
+        scen += acct_seq_scenarios(rng, tag, 30 if quick else 81)
     if prop in ("C11", "C14", "C07"):
         scen += repeated_rule_scenarios(rng, tag, 20 if quick else 300)
     if prop in ("C07", "C11"):
